@@ -20,6 +20,9 @@ import PM.DomWalk
 import Proofs.DomWalk
 import Proofs.PlacementNoInternal
 import Proofs.DomWalkSafe
+import PM.RoundTrip
+import Proofs.RoundTripCore
+import Proofs.RoundTrip
 namespace PM.C19
 open PM.Dom
 
@@ -841,5 +844,99 @@ example : (normalizeList [.elem "li" [] [] [.other], .other, .elem "ul" [] [] []
 open PM.DomWalk in
 example : (normalizeList [.elem "li" [] [] [], .other, .elem "ul" [] [] []]).length = 3 := by decide
 end Examples
+
+/-! ## Export then import (PM/RoundTrip.lean; tied by whole round trips: HTML, oracle-filled abstract DOM, document)
+
+  `RoundTrip.serializeDoc` applies a schema's `toDOM` functions (`ToDom`) to a document and runs the serializer model;
+  `RoundTrip.toDomList` turns the emitted DOM into the abstract DOM of the walk *with the oracle filled in* (which rules'
+  selectors match, what the attribute-copying `get_attrs` answer) for parse rules in the restricted form the bundled
+  schemas use; `RoundTrip.roundTrip` = serialise, convert, `parse`.  `RoundTrip.rtOk R D doc` is the decidable
+  hypothesis: `doc` is a valid normalised document, every node's / mark's emitted element is matched first by a
+  context-free rule that maps back to the same type with the same attributes, and every text is whitespace-normal for the
+  whitespace mode in force (`textOk`, `lastOk`).
+
+  The full statement (NOT proved here; the tie checks it relationally on every generated document — `rtOk` ⇒ the real
+  round trip is the identity, and the model's round trip equals the real one exactly):
+
+      theorem roundtrip (R : RoundTrip.RParser) (D : RoundTrip.ToDom) (doc : Node)
+          (h : RoundTrip.rtOk R D doc = true) : RoundTrip.roundTrip R D doc = .ok doc
+
+  Proved (`…_partial`): the steps of the induction for mark-free content —
+  * a whitespace-normal text (`textOk`) met by the walk inside an open context whose automaton accepts text is inserted
+    *unchanged* and the walk's invariant is kept (`roundtrip_text_partial`);
+  * a node the open context's automaton accepts is placed directly below it — no wrapper is opened, no filler
+    inserted, pending contexts above are closed first — by `insert_node` (`roundtrip_insert_partial`) and `enter`
+    (`roundtrip_enter_partial`).
+  Missing for the full statement: the same for the close of an element (`sync` + `finish` of the context: `lastOk`,
+  `fillNodes_validEnd`), the induction over the document that chains these steps, the mark bookkeeping (pending / active
+  marks against the nesting order of `serialize_fragment`), and `toDomList (serializeDoc …)` = the canonical DOM of `doc`. -/
+
+open PM PM.RoundTrip PM.FromDom in
+/-- **text survives** (stage i of the round trip): inside an open context `cx` (type `t`, automaton state `q`, nothing
+    pending) of inline content, a text that is whitespace-normal for the mode of `cx` (`textOk`) and — if it starts with a
+    white space — does not meet the leading-space drop, is inserted unchanged as a text node; the invariant of the walk
+    holds again, with the text appended to the content of `cx` -/
+theorem roundtrip_text_partial (P : DomWalk.Parser) (w : DomWalk.WState) (base : List NodeCtx) (cx : NodeCtx) (ext : List NodeCtx)
+    (c : List Node) (t : TypeId) (q q' : Nat) (s : List Nat) (prev : Option (Node × String)) (ptag : Option String) (prevBr : Bool)
+    (hi : Inv P.S w base cx ext c) (hp : Plain cx t q) (hinl : (P.S.nodeType t).inlineContent = true)
+    (hok : textOk cx.opts prev s = true)
+    (hdrop : cx.opts.preserveWs = false → startsWithSpace s = true → ext = [] → dropsLead cx prevBr = false)
+    (hm : (P.S.dfa t).matchType q P.S.textTy = some q') :
+    ∃ w', DomWalk.addTextNode P w (some s) ptag prevBr = .ok w' ∧
+      Inv P.S w' base { cx with content := c ++ [.text s []], mtch := some q' } [] (c ++ [.text s []]) ∧
+      w'.st.fresh = w.st.fresh :=
+  addTextNode_normal P w base cx ext c t q q' s prev ptag prevBr hi hp hinl hok hdrop hm
+
+open PM PM.RoundTrip PM.FromDom in
+/-- **direct placement** by `insert_node`: a mark-free node whose type the automaton of the open context accepts in its
+    state is appended to that context (after the finished contexts above it have been closed into it) -/
+theorem roundtrip_insert_partial (S : Schema) (wsPre : TypeId → Bool) (st : PState) (base : List NodeCtx) (cx : NodeCtx)
+    (ext : List NodeCtx) (c : List Node) (t : TypeId) (q q' : Nat) (node : Node)
+    (hn : st.nodes = base ++ cx :: ext) (ho : st.open_ = base.length) (hp : Plain cx t q) (hs : Settles S cx ext c)
+    (hm : (S.dfa t).matchType q (S.tyOf node) = some q') (hmk : node.marks = []) :
+    st.insertNode S wsPre node =
+      .ok ({ st with nodes := base ++ [{ cx with content := c ++ [node], mtch := some q' }] }, true) :=
+  insertNode_plain S wsPre st base cx ext c t q q' node hn ho hp hs hm hmk
+
+open PM PM.RoundTrip PM.FromDom in
+/-- **direct placement** by `enter`: a type the automaton of the open context accepts is opened directly below it, as a
+    solid context with the whitespace mode `ws_options_for` gives -/
+theorem roundtrip_enter_partial (S : Schema) (wsPre : TypeId → Bool) (st : PState) (base : List NodeCtx) (cx : NodeCtx)
+    (ext : List NodeCtx) (c : List Node) (t : TypeId) (q q' : Nat) (ty : TypeId) (attrs : Option Attrs) (pw : WS) (a : Attrs)
+    (hn : st.nodes = base ++ cx :: ext) (ho : st.open_ = base.length) (hp : Plain cx t q) (hs : Settles S cx ext c)
+    (hm : (S.dfa t).matchType q ty = some q') (ha : computeAttrs (S.nodeType ty).attrs (attrs.getD []) = .ok a) :
+    st.enter S wsPre ty attrs pw =
+      .ok ({ st with nodes := base ++ [{ cx with content := c, mtch := some q' },
+                                       { NodeCtx.new (some ty) attrs [] [] true (wsOptionsFor (wsPre ty) pw cx.opts) with uid := st.fresh }],
+                     open_ := base.length + 1, fresh := st.fresh + 1 }, true) :=
+  enter_plain S wsPre st base cx ext c t q q' ty attrs pw a hn ho hp hs hm ha
+
+namespace RoundTripExamples
+open PM.RoundTrip PM.FromDom
+-- labelled tests of the whitespace rule (`textOk`): "foo", "a b" are normal; a leading space at the start of a textblock,
+-- a double space, a tab are not; a leading space after a text that does not end in white space is ("spaces between
+-- differently marked words survive"), after one that does it is not; after a `<br>` it is not, after an `<img>` it is
+example : textOk {} none [102, 111, 111] = true := by decide
+example : textOk {} none [97, 32, 98] = true := by decide
+example : textOk {} none [32, 98] = false := by decide
+example : textOk {} none [97, 32, 32, 98] = false := by decide
+example : textOk {} none [97, 9, 98] = false := by decide
+example : textOk {} (some (.text [102, 111, 111] [⟨0, []⟩], "")) [32, 98, 97, 114] = true := by decide
+example : textOk {} (some (.text [102, 111, 32] [⟨0, []⟩], "")) [32, 98, 97, 114] = false := by decide
+example : textOk {} (some (.leaf 7 [] [], "br")) [32, 98] = false := by decide
+example : textOk {} (some (.leaf 6 [] [], "img")) [32, 98] = true := by decide
+-- in a code block (`preserve_whitespace: "full"`) newlines, tabs, runs of spaces survive; a carriage return does not
+example : textOk { preserveWs := true, full := true } none [97, 10, 32, 32, 9, 98, 10] = true := by decide
+example : textOk { preserveWs := true, full := true } none [97, 13, 10, 98] = false := by decide
+-- the strip at `finish`: a textblock must not end in a white space, a code block may
+example : lastOk {} [.text [97, 32] []] = false := by decide
+example : lastOk { preserveWs := true, full := true } [.text [97, 32] []] = true := by decide
+-- the oracle filling: `<a href="x" title="t">` is a candidate of `a[href]` (answer {"href": "x"}), not of `a[name]`
+example : (candsFrom "a" [("href", "x".toList), ("title", "t".toList)]
+    [{ tag := "p" }, { tag := "a", need := ["name"] }, { tag := "a", need := ["href"], copy := some [("href", "href")] }] 0).map
+      (fun c => (c.1.idx, match c.1.ga with
+        | .attrs (some a) => a
+        | _ => [])) = [(2, [("href", "\"x\"")])] := by decide
+end RoundTripExamples
 
 end PM.C19
